@@ -449,6 +449,7 @@ func (r *runnableStep) Start(_ map[string]any, runID string, stageChangeHandler 
 		stageChangeHandler: stageChangeHandler,
 		logger:             r.logger,
 	}
+	rs.wg.Add(1) // Registered before the goroutine starts, so that Close always waits for run to finish.
 	go rs.run()
 	return rs, nil
 }
@@ -568,7 +569,11 @@ func (r *runningStep) Close() error {
 	r.cancel()
 	r.wg.Wait()
 	r.logger.Debugf("Closing inputData channel in foreach step provider")
+	// ProvideStageInput checks the closed flag and sends while holding the lock; closing the channel under the
+	// same lock makes sure the send can never hit an already closed channel.
+	r.lock.Lock()
 	close(r.executeInput)
+	r.lock.Unlock()
 	return nil
 }
 
@@ -577,8 +582,8 @@ func (r *runningStep) ForceClose() error {
 	return r.Close()
 }
 
+// Note: Caller must add 1 to the waitgroup before calling.
 func (r *runningStep) run() {
-	r.wg.Add(1)
 	defer func() {
 		r.logger.Debugf("foreach run function done")
 		r.wg.Done()
